@@ -32,10 +32,15 @@ def run(ctx):
         for s in blk["stmts"]:
             if s["k"] == "assign" and s["place"]["l"] == 0 and s["rv"]["k"] == "agg" and s["rv"].get("variant") == "Ok":
                 roots.append(aggtree.tree(b, s["rv"]["ops"][0]))
-    if not res.anchor(len(roots) == 1, "one success value in for::create_instruction"):
+    if not res.anchor(len(roots) >= 1, "a success value in for::create_instruction"):
         return res
-    t = _ins(roots[0])
-    key = "forshape"
+    for n, root in enumerate(roots):
+        _shape(res, b, root, "forshape" if n == 0 else "forshape#%d" % n)
+    return res
+
+
+def _shape(res, b, root, key):
+    t = _ins(root)
     bad = []
 
     def fail(msg):
